@@ -73,6 +73,16 @@ def _odd(bits, value):
     return Odd()
 
 
+def _deal_shared(r):
+    """what the callable shared by the subscriptions D1 / D2 collected, dealt out alternately (both joined at the start and
+    never left, so every report reaches it twice in a row)"""
+    t = dict(r.traffic)
+    lst = getattr(r, "_shared_list", None)
+    if lst is not None:
+        t["D1"], t["D2"] = lst[0::2], lst[1::2]
+    return t
+
+
 def describe_command(cmd):
     return {"frame": cmd.frame.as_integer, "bits": len(cmd.frame), "dt": cmd.devicetype if isinstance(cmd.devicetype, int) else 0,
             "twice": 1 if cmd.sendtwice else 0, "query": 1 if cmd.response is not None else 0,
@@ -261,6 +271,16 @@ class Run:
         if self.kind in ("tridonic", "hasseb"):
             if what == "join":
                 self.traffic.setdefault(name, [])
+                if name.startswith("D"):
+                    # two subscriptions that hand over the SAME callable (a bound method of one object, say): both are
+                    # subscriptions in their own right; the callable cannot tell which one called it, so what it collects is
+                    # dealt out to the two names alternately afterwards
+                    if not hasattr(self, "_shared_cb"):
+                        self._shared_list = []
+                        self._shared_cb = lambda drv, cmd, resp, err: self._shared_list.append(self._traffic_item(cmd, resp, err))
+                    self.traffic.setdefault(name, [])
+                    self.handles[name] = d.bus_traffic.register(self._shared_cb)
+                    return
                 def deliver(drv, cmd, resp, err, _n=name):
                     self.traffic[_n].append(self._traffic_item(cmd, resp, err))
                     if _n.startswith("X"):
@@ -598,7 +618,7 @@ def run_scenario(sc):
             pass
     return {"driver": sc["driver"], "wire": r.gw.cmdlog, "writes": r.gw.writes if sc.get("keep_writes") else [],
             "nwrites": len(r.gw.writes), "callers": callers, "lock_free": lock_free, "status": r.status,
-            "traffic": [[n, v] for n, v in sorted(r.traffic.items())], "out": out, "info": info, "hs": hs, "presend": r.presend,
+            "traffic": [[n, v] for n, v in sorted(_deal_shared(r).items())], "out": out, "info": info, "hs": hs, "presend": r.presend,
             "opens": getattr(r.gw, "openlog", []), "present_at_end": 1 if r.gw.present else 0,
             "lost_at": round(r.lost_at, 6), "returned_in_time": r.returned_in_time,
             "reports": r.gw.reports if sc.get("keep_reports") else [],
